@@ -129,6 +129,40 @@ def aggregate_scenarios(w: PolWorld):
     return out
 
 
+def window_scenarios(w: PolWorld):
+    """window functions with `arrange=`: with and without partition, 0 / 1 / 2 positional arguments.  The value must have been
+    ordered: without partition the result carries a `sort_by` of its own (computed on sorted input, then brought back into table
+    order) - for 0 arguments only the value can carry it -, with partition `.over(.., order_by=<not None>)`.
+    -> list of (description, ok, detail)"""
+    out = []
+    a, b, g, o = w.col("a", "UA"), w.col("b", "UB"), w.col("g", "UG"), w.col("o", "UO")
+    names = {"UA": "a", "UB": "b", "UG": "g", "UO": "o"}
+    for opname, nargs in (("row_number", 0), ("shift", 1), ("cum_sum", 1), ("some_window_fn", 2)):
+        args = [a, b][:nargs]
+        for part in (False, True):
+            kw = {"arrange": [w.order(o)]}
+            if part:
+                kw["partition_by"] = [g]
+            label = f"{opname}({nargs} argument(s), arrange=.., {'partition_by=..' if part else 'no partition'})"
+            try:
+                t = w.compile(w.fn(w.op(opname, w.F.WINDOW), args, **kw), names)
+            except PyRaise as e:
+                out.append((f"{label} compiles", False, f"Polars compile_col_expr raises {e.name}: {e.msg} for {label}"))
+                continue
+            top_sorts = [x for x, inside in _ancestors_fn(t, lambda x: x.fn == "sort_by") if not any(i.startswith("impl:") for i in inside)]
+            overs = [x for x, _ in _ancestors_fn(t, lambda x: x.fn == "over")]
+            if part:
+                ok = bool(overs) and all(x.kwargs.get("order_by") is not None for x in overs)
+                why = "with a partition the ordering must reach `.over(.., order_by=..)`"
+            else:
+                ok = bool(top_sorts) or any(x.kwargs.get("order_by") is not None for x in overs)
+                why = "without a partition the value must be computed on sorted input and brought back into table order (sort_by on the value)"
+            out.append((f"{label}: the result is ordered", ok,
+                        f"Polars {label} compiles to {str(t)[:220]}: `arrange=` is silently ignored - {why} "
+                        "(e.g. row_number(arrange=..) on an ungrouped table numbers the rows in table order)"))  # fmt: skip
+    return out
+
+
 # =====================================================================================================================
 # finite-domain evaluation of Polars terms
 # =====================================================================================================================
